@@ -59,7 +59,8 @@ def dispatch (line : String) : String :=
   | "c04seq" :: args => C04.handle args
   | "c03big" :: args => C03.handleBig args
   | "c03sub" :: args => C03.handleSub args
-  | "c03fn" :: args => C03.handleFn args
+  | "c03fn" :: args => C03.handleFnOk args
+  | "c03fnx" :: args => C03.handleFn args
   | "planar" :: args => C11.handlePlanar args
   | "minorcert" :: args => C11.handleCert args
   | "pknown" :: args => C11.handleKnown args
